@@ -117,6 +117,12 @@ def recvChan (ch : Chan) : Chan × Option Msg :=
 /-- Drop of the receiver: queued messages are discarded, later `try_send`s see `Closed`. -/
 def closeChan (ch : Chan) : Chan := { ch with queue := [], closed := true }
 
+/-- `mpsc::Receiver::close()` WITHOUT dropping the receiver: later `try_send`s see `Closed` (the semaphore is
+closed, which `try_acquire` tests before it looks for a free permit), the backlog stays queued - a closed
+subscriber whose queue is still exactly full.  (The sender's own control connection only ever drops its
+receiver; the hub API admits this state and `publish` must prune such a subscriber all the same.) -/
+def shutChan (ch : Chan) : Chan := { ch with closed := true }
+
 inductive Op
   | sub (topic : Topic) (chan : Nat)
   | unsub (id : Nat)
@@ -124,6 +130,8 @@ inductive Op
   | len
   | recv (chan : Nat)
   | close (chan : Nat)
+  /-- `Receiver::close()`, receiver kept (backlog not drained) -/
+  | shut (chan : Nat)
 deriving Repr
 
 /-- What a completed call returns.  `published must` carries the ghost obligation list. -/
@@ -163,6 +171,9 @@ def apply (h : Hub) : Op → Hub × Obs
   | .close c =>
     if (h.chans c).closed then (h, .rxGone)
     else ({ h with chans := upd h.chans c (closeChan (h.chans c)) }, .closed)
+  | .shut c =>
+    if (h.chans c).closed then (h, .rxGone)
+    else ({ h with chans := upd h.chans c (shutChan (h.chans c)) }, .closed)
 
 /-! ## Layer 2: small-step interleaving semantics -/
 
@@ -261,6 +272,10 @@ def step (s : Sys) (t : Nat) : Option Sys :=
       if (s.hub.chans c).closed then some (s.finish t .rxGone)
       else some ((s.finish t .closed).setHub
         { s.hub with chans := upd s.hub.chans c (closeChan (s.hub.chans c)) })
+    | .shut c :: _ =>
+      if (s.hub.chans c).closed then some (s.finish t .rxGone)
+      else some ((s.finish t .closed).setHub
+        { s.hub with chans := upd s.hub.chans c (shutChan (s.hub.chans c)) })
   | .subId topic chan id =>
     if s.lock.isSome then none else some ((s.setPc t (.subLocked topic chan id)).setLock (some t))
   | .subLocked topic chan id =>
